@@ -50,6 +50,9 @@ pub struct DocV {
     /// places of one module) instead of dropping the repetition
     #[serde(default)]
     pub dups: bool,
+    /// as a history step: send the document's CURRENT text again (didChange with identical text)
+    #[serde(default)]
+    pub resend: bool,
 }
 
 #[derive(Clone, Debug, Serialize, Deserialize)]
@@ -200,7 +203,7 @@ fn docv(level: u8) -> impl Strategy<Value = DocV> {
     let ts = (0u8..3, vec(dep.clone(), 0..=2), prop_oneof![1 => Just(vec![]), 2 => vec(dep, 1..=3)]).prop_map(|(k, params, body)| Tst { k, params, body });
     let nt = if level == 2 { 1..=3usize } else { 0..=1usize };
     (vec(fx, 0..=3), vec(ts, nt), prop_oneof![9 => Just(false), 1 => Just(true)], prop_oneof![6 => Just(false), 1 => Just(true)], prop_oneof![2 => Just(false), 1 => Just(true)])
-        .prop_map(|(fixtures, tests, broken, close, dups)| DocV { fixtures, tests, broken, close, dups })
+        .prop_map(|(fixtures, tests, broken, close, dups)| DocV { fixtures, tests, broken, close, dups, resend: false })
 }
 
 fn conf() -> impl Strategy<Value = Conf> {
@@ -212,7 +215,10 @@ fn conf() -> impl Strategy<Value = Conf> {
 }
 
 pub fn session() -> impl Strategy<Value = Session> {
-    (conf(), docv(0), docv(1), docv(2), docv(1), vec((0u8..3, prop_oneof![docv(0), docv(1), docv(2)]), 1..=6)).prop_map(|(conf, a, b, c, skipme, steps)| {
+    (conf(), docv(0), docv(1), docv(2), docv(1), vec((0u8..3, prop_oneof![docv(0), docv(1), docv(2)], prop_oneof![5 => Just(false), 1 => Just(true)]).prop_map(|(l, mut d, resend)| {
+        d.resend = resend;
+        (l, d)
+    }), 1..=6)).prop_map(|(conf, a, b, c, skipme, steps)| {
         let mut a = a;
         let mut b = b;
         let mut c = c;
@@ -319,8 +325,26 @@ pub fn check_session(ctx: &Ctx, s: &Session, info: &mut CaseInfo) -> Outcome {
         st.1.close = false;
     }
     all_steps.extend(s.steps.iter().cloned());
+    // resend steps: replace the generated version by the document's current one
+    let mut last_dv: [Option<DocV>; 3] = [None, None, None];
+    for st in all_steps.iter_mut() {
+        let l = (st.0 % 3) as usize;
+        if st.1.resend && !st.1.close {
+            if let Some(prev) = &last_dv[l] {
+                let mut same = prev.clone();
+                same.resend = true;
+                st.1 = same;
+            }
+        }
+        if !st.1.close {
+            last_dv[l] = Some(st.1.clone());
+        }
+    }
     for (k, (lvl, dv)) in all_steps.iter().enumerate() {
         let l = (*lvl % 3) as usize;
+        if dv.resend {
+            info.classes.push("step=resend of identical text".into());
+        }
         if dv.close {
             if opened[l] {
                 opened[l] = false;
